@@ -103,6 +103,18 @@ func genCase(t *rapid.T) Case {
 	schema := prog.Summarize(c.Input.Vals)
 	if prog.Chance(t, 55, "sortkey?") && len(schema.Fields) > 0 {
 		c.SortKey = schema.Fields[prog.Uniform(t, len(schema.Fields), "sortkey")].Name
+		if prog.Chance(t, 50, "numkey") {
+			// prefer a numeric key (order-preserving functions, mixed signs)
+			var num []string
+			for _, f := range schema.Fields {
+				if f.NumOnly {
+					num = append(num, f.Name)
+				}
+			}
+			if len(num) > 0 {
+				c.SortKey = prog.Pick(t, num, "numsortkey")
+			}
+		}
 		c.Desc = prog.Chance(t, 40, "desc")
 		sortInput(c.Input.Zctx, c.Input.Vals, c.SortKey, c.Desc)
 	}
@@ -260,6 +272,28 @@ func noStreamingMultiKeySummarize(seq dag.Seq) {
 	})
 }
 
+// noStreamingSummarize takes the input sort direction out of every summarize of an optimized plan.
+func noStreamingSummarize(seq dag.Seq) {
+	walkSeqs(seq, func(seq dag.Seq) {
+		for _, op := range seq {
+			if s, ok := op.(*dag.Summarize); ok {
+				s.InputSortDir = 0
+			}
+		}
+	})
+}
+
+// noJoinDirs takes the input directions out of every join of an optimized plan (both sides get sorted again).
+func noJoinDirs(seq dag.Seq) {
+	walkSeqs(seq, func(seq dag.Seq) {
+		for _, op := range seq {
+			if j, ok := op.(*dag.Join); ok {
+				j.LeftDir, j.RightDir = order.Unknown, order.Unknown
+			}
+		}
+	})
+}
+
 func hasStreamingMultiKeySummarize(seq dag.Seq) (found bool) {
 	walkSeqs(seq, func(seq dag.Seq) {
 		for _, op := range seq {
@@ -330,6 +364,24 @@ func optimizeJob(job *compiler.Job) (err error) {
 // runBoth executes the plan exactly as analysed and the optimized plan.
 func runBoth(seq ast.Seq, src source, prep func(dag.Seq)) (plain, opt result) {
 	return runOne(seq, src, false, prep), runOne(seq, src, true, prep)
+}
+
+// fixpointOfSort runs the single operator sortText (as analysed, over an
+// opaque reader) on vals and reports how the result differs from vals ("" if not at all).
+func fixpointOfSort(sortText string, vals []zed.Value) string {
+	seq, _, err := compiler.Parse(sortText)
+	if err != nil {
+		return ""
+	}
+	src, err := newFileSource(Case{Input: gen.Seq{Vals: vals}, Reader: "plain", Frame: 100000, Threads: 1, Batch: 100})
+	if err != nil {
+		return ""
+	}
+	r := runOne(seq, src, false, nil)
+	if r.stage != "" {
+		return ""
+	}
+	return oracle.Same(vals, r.vals)
 }
 
 // ---- plan comparison (what did the optimizer do)
@@ -454,6 +506,18 @@ func keyNullMissing(c Case) (hasNull, hasMissing bool) {
 	return hasNull, hasMissing
 }
 
+// keyIsFloat reports whether the declared sort key holds a float (possibly null) in some input value.
+func keyIsFloat(c Case) bool {
+	e := expr.NewDottedExpr(c.Input.Zctx, field.Dotted(c.SortKey))
+	ectx := expr.NewContext()
+	for _, v := range c.Input.Vals {
+		if k := e.Eval(ectx, v); zed.IsFloat(k.Type().ID()) {
+			return true
+		}
+	}
+	return false
+}
+
 func keyHasNullOrMissing(c Case) bool {
 	n, m := keyNullMissing(c)
 	return n || m
@@ -547,6 +611,23 @@ func runCase(c Case) *vt.Outcome {
 		}
 		return &vt.Outcome{Skip: reason}
 	}
+	if meta.FinalSort != "" {
+		// The program ends in a keyed sort: the output of either plan must be in
+		// that order (a stable re-sort by the plain sort operator leaves it unchanged).
+		o.Label("final-sort-checked")
+		if d := fixpointOfSort(meta.FinalSort, plain.vals); d == "" {
+			if d := fixpointOfSort(meta.FinalSort, opt.vals); d != "" {
+				sig := "C07/final-sort-order-violated"
+				if strings.Contains(opt.dag, `"kind":"Merge"`) && !strings.Contains(plain.dag, `"kind":"Merge"`) {
+					sig = "C07/sort-lifted-into-fork/merge-order-differs-from-sort"
+				}
+				o.Fail = vt.Failf(sig, "the optimized plan's output is not in the order of the final `%s`: %s\nprogram: %s\noptimized plan: %s", meta.FinalSort, d, c.Program, opt.dag)
+				return o
+			}
+		} else {
+			o.Label("final-sort-not-a-fixpoint-in-reference")
+		}
+	}
 	if !meta.Deterministic {
 		return o
 	}
@@ -569,9 +650,27 @@ func runCase(c Case) *vt.Outcome {
 		sig = "C07/order-differs"
 	}
 	// known classes (narrow)
+	presorted := false
 	for _, d := range joinDirs(opt.dag) {
-		if (d[0] == "desc" && d[1] == "unknown" || d[1] == "desc" && d[0] == "unknown") && keyHasNullOrMissing(c) {
-			sig = "C07/sortkey-join/desc-null-keys"
+		if d[0] != "unknown" || d[1] != "unknown" {
+			presorted = true
+		}
+	}
+	if presorted {
+		// Is the omitted sort of a join side the cause?  Run the optimized plan with the directions taken out.
+		if r := runOnePost(seq, src, true, nil, noJoinDirs); r.stage == "" && compare(plain.vals, r.vals) == "" {
+			known := "C07/sortkey-join/presorted-side-differs"
+			switch {
+			case strings.Contains(opt.dag, `"nullsfirst":true`):
+				known = "C07/sortkey-join/sort-nulls-first-taken-for-sorted"
+			case strings.Contains(opt.dag, `_dir":"desc"`) && keyHasNullOrMissing(c):
+				known = "C07/sortkey-join/desc-null-keys"
+			}
+			if vt.IsKnown(known) {
+				o.Known = append(o.Known, known)
+				return o
+			}
+			sig = known
 		}
 	}
 	if opt.multiKeyStreaming {
@@ -587,8 +686,25 @@ func runCase(c Case) *vt.Outcome {
 			sig = known
 		}
 	}
-	if n, m := keyNullMissing(c); n && m && sig != "C07/sortkey-summarize/sort-key-not-first-groupby-key" && countRE(opt.dag, `"input_sort_dir":-?1`) > 0 {
-		sig = "C07/sortkey-summarize/null-and-missing-keys-interleaved"
+	if countRE(opt.dag, `"input_sort_dir":-?1`) > 0 && sig != "C07/sortkey-summarize/sort-key-not-first-groupby-key" {
+		// Is the streaming group-by (Summarize.InputSortDir) the cause?  Run the
+		// optimized plan with the direction taken out again.
+		if r := runOnePost(seq, src, true, nil, noStreamingSummarize); r.stage == "" && compare(plain.vals, r.vals) == "" {
+			known := "C07/sortkey-summarize/streaming-differs"
+			hasNull, hasMissing := keyNullMissing(c)
+			switch {
+			case hasNull && hasMissing:
+				known = "C07/sortkey-summarize/null-and-missing-keys-interleaved"
+			case hasNull && keyIsFloat(c) && regexp.MustCompile(`"kind":"Summarize","limit":\d+,"keys":\[\{"kind":"Assignment","lhs":\{[^{}]*\},"rhs":\{"kind":"Call","name":"(floor|ceil|round)"`).MatchString(opt.dag):
+				known = "C07/sortkey-summarize/rounding-function-of-null-float-key"
+			}
+			if vt.IsKnown(known) {
+				// everything but the streaming release has been checked by r
+				o.Known = append(o.Known, known)
+				return o
+			}
+			sig = known
+		}
 	}
 	if c.Reader == "zng" && strings.Contains(opt.dag, `"kind":"DefaultScan","filter":{`) {
 		// Is the ZNG scanner's pushdown the cause?  Run the same optimized plan over an opaque reader.
